@@ -1,24 +1,20 @@
-use delaunay::core::builder::DelaunayTriangulationBuilder;
+use delaunay::core::delaunay_triangulation::{ConstructionOptions, DedupPolicy, DelaunayTriangulation};
+use delaunay::core::triangulation::TopologyGuarantee;
 use delaunay::core::vertex::Vertex;
+use delaunay::geometry::kernel::FastKernel;
 use delaunay::geometry::point::Point;
 use delaunay::geometry::traits::coordinate::Coordinate;
 fn main() {
-    let sets: Vec<(&str, [f64;2], Vec<[f64; 2]>)> = vec![
-        ("case", [4.0, 3.0], vec![[-4.00000000092, 0.75],[13.0,-3.00000000069],[2.5,5.4375],[1.5,2.0625],[-4.5,-3e-12],[0.25,2.9999999999972715],[5.5,0.5625],[-7.75,0.0],[-4.000000000004,-0.9375],[-4.25,11.8125],[6.0,-1.875],[1.0,0.75]]),
-        ("plain43", [4.0, 3.0], vec![[0.5,0.75],[1.0,2.25],[2.5,1.5],[1.5,2.0625],[3.5,0.25],[0.25,2.5],[1.5,0.5625],[3.25,2.0],[2.0,0.9375],[3.75,2.8125],[2.0,2.625],[1.0,0.75]]),
-        ("plain44", [4.0, 4.0], vec![[0.5,0.75],[1.0,2.25],[2.5,1.5],[1.5,2.0625],[3.5,0.25],[0.25,2.5],[1.5,0.5625],[3.25,2.0],[2.0,0.9375],[3.75,2.8125],[2.0,2.625],[1.0,0.75+2.0]]),
-        ("plain21", [2.0, 1.0], vec![[0.5,0.75],[1.0,0.25],[1.5,0.5],[0.25,0.0625],[1.75,0.25],[0.25,0.5],[1.5,0.5625+0.25],[1.25,0.9],[0.8,0.4]]),
-    ];
-    for (name, dom, pts) in sets {
-        let vs: Vec<Vertex<f64, i32, 2>> = pts.iter().enumerate().map(|(i, p)| Vertex::new_with_uuid(Point::new(*p), uuid::Builder::from_random_bytes((1000u128 + i as u128).to_le_bytes()).into_uuid(), Some(i as i32))).collect();
-        let r = DelaunayTriangulationBuilder::from_vertices(&vs).toroidal_periodic(dom).build::<i32>();
-        match r {
-            Ok(dt) => {
-                let nb = dt.boundary_facets().count();
-                let fv = delaunay::topology::characteristics::euler::count_simplices(dt.tds()).unwrap();
-                println!("{name}: Ok nv={} nc={} boundary={} chi={} tds_valid={}", dt.number_of_vertices(), dt.number_of_cells(), nb, delaunay::topology::characteristics::euler::euler_characteristic(&fv), dt.tds().is_valid().is_ok());
-            }
-            Err(e) => println!("{name}: Err {}", format!("{e}").chars().take(120).collect::<String>()),
+    let pts: Vec<[f64; 2]> = vec![[0.,0.],[4.,0.],[0.,4.],[3.,3.],[1.,2.]];
+    let vs: Vec<Vertex<f64, i32, 2>> = pts.iter().enumerate().map(|(i, p)| Vertex::new_with_uuid(Point::new(*p), uuid::Builder::from_random_bytes((1000u128 + i as u128).to_le_bytes()).into_uuid(), Some(i as i32))).collect();
+    for tol in [1e-12, 1e-9, 1e-6] {
+        let o = ConstructionOptions::default().with_dedup_policy(DedupPolicy::Epsilon { tolerance: tol });
+        let mut dt = DelaunayTriangulation::<FastKernel<f64>, i32, i32, 2>::with_topology_guarantee_and_options(&FastKernel::new(), &vs, TopologyGuarantee::PLManifold, o).unwrap();
+        for dx in [0.0, 5e-11, 2e-10] {
+            let mut d2 = dt.clone();
+            let v = Vertex::new_with_uuid(Point::new([1.0 + dx, 2.0]), uuid::Builder::from_random_bytes((2000u128).to_le_bytes()).into_uuid(), Some(99));
+            println!("tol={tol:e} dx={dx:e}: {:?}", d2.insert(v).map(|_| "Inserted").map_err(|e| format!("{e}").chars().take(50).collect::<String>()));
         }
+        let _ = &mut dt;
     }
 }
